@@ -10,7 +10,11 @@ PROP = {
             "8-byte stream x 6 size sequences, random streams/sizes, exact-fit writes) read back by pipelineRecvData; pipelineSendData re-splitting; "
             "line senders; protocol-1 sendData/recvData. codec-e2e group: binary uploads of protected-byte payloads and names through the real client "
             "and the real trz (escape on/off x compress yes/no/auto x protocol 4/2/1): every byte of the recorded client->server wire is checked "
-            "against the table announced in the server's CFG line",
+            "against the table announced in the server's CFG line, and that table must contain what the options promise whatever the server announces "
+            "('~' always; with -e also CR, DLE, XON, XOFF, CAN, ESC, GS and the 8-bit forms the built-in table has: 8d 90 91 93 9d). "
+            "Direct oracle in group escape: every escape pair a table does NOT define (every undefined code x both built-in tables x sampled announced "
+            "tables) must be rejected by the flat decoder for every destination size and by the streaming reader for every cut of the stream, "
+            "between the leader and its code too",
     "trusted": ["modelled, not verified: JSON decoding and ISO-8859-1 encoding of the announced table (the model starts at the decoded array of strings); zstd in front of the escaper is an arbitrary byte function",
                 "modelled, not verified: encoding/base64 is transcribed from its observable behaviour (alphabet, padding, non-strict decoding, CR/LF skipping) and tied by the correspondence run; zlib under base64 is an arbitrary function (its outputs are passed to the model as an oracle per case)",
                 "correspondence of the STREAMING base64 decoder on malformed input is restricted to streams without '=' before their last quantum: NewDecoder decodes 4k-aligned blocks independently, so padding in mid-stream is accepted or rejected depending on read boundaries; the whole-stream decoder (DecodeString) is compared on all malformed inputs"],
